@@ -519,6 +519,13 @@ struct Exec {
         if (!prefix.empty()) inc("fault_prefilled_string_fired");
         if (prefix.size() <= 15 && s.size() > 15) inc("fault_sso_to_heap_growth_fired");
         check_string("describe_into", s, prefix + want_n(o.n));
+        if (o.f) {
+          // the same std::string is handed to a second write-out call: it continues behind what is there
+          diplomat::capi::DiplomatWrite w2 = diplomat::WriteFromString(s);
+          diplomat::capi::Tok_describe_n(x.tok->AsFFI(), (o.n + 3) % 11, &w2);
+          inc("fault_string_reused_for_second_call_fired");
+          check_string("describe_into (second call)", s, prefix + want_n(o.n) + want_n((o.n + 3) % 11));
+        }
         break;
       }
       case DESTROY: {
